@@ -1,6 +1,11 @@
 (* The machine with a shadow call stack (property C06): every jal / b..al records where the
    call has to return to and the stack pointer at the call; every `j ra` is checked against the
-   innermost record.  The monitor only observes; it never changes the run. *)
+   innermost record.  The monitor only observes; it never changes the run.
+
+   `entries` are the lines at which functions begin.  A linking jump to any other line is a subroutine
+   inside a function (the body of a loop over a constant list); a `return` statement inside such a body
+   leaves it without coming back, so records of inner subroutines that the return does not serve are
+   dropped before the function's own record is checked. *)
 From Coq Require Import List ZArith Bool Arith.
 From PV Require Import IC10.Values IC10.Machine.
 Import ListNotations.
@@ -25,7 +30,14 @@ Definition is_ret (s : state) (op : opcode) (args : list (@operand val)) : bool 
 
 Definition sp_of (s : state) : Z := match sp_val A s with Some z => z | None => (-1)%Z end.
 
-Fixpoint mrun (O : @oracle val) (p : @program val) (fuel : nat) (s : state) (stk : list frame) (log : list retrec)
+Definition is_inner (entries : list nat) (f : frame) : bool := negb (existsb (Nat.eqb (fr_callee f)) entries).
+Fixpoint unwind (entries : list nat) (tgt : nat) (stk : list frame) : list frame :=
+  match stk with
+  | f :: rest => if is_inner entries f && negb (Nat.eqb tgt (fr_ret f)) then unwind entries tgt rest else stk
+  | [] => []
+  end.
+
+Fixpoint mrun (entries : list nat) (O : @oracle val) (p : @program val) (fuel : nat) (s : state) (stk : list frame) (log : list retrec)
   : state * list frame * list retrec :=
   match fuel with
   | O => (s, stk, log)
@@ -36,34 +48,34 @@ Fixpoint mrun (O : @oracle val) (p : @program val) (fuel : nat) (s : state) (stk
           match nth_error p (pc s) with
           | Some (LInstr op args) =>
               if links op && ((match op with IJal => true | _ => false end) || negb (Nat.eqb (pc s') (S (pc s)))) && (match st s' with Running => true | _ => false end)
-              then mrun O p k s' ({| fr_ret := S (pc s); fr_sp := sp_of s; fr_callee := pc s' |} :: stk) log
+              then mrun entries O p k s' ({| fr_ret := S (pc s); fr_sp := sp_of s; fr_callee := pc s' |} :: stk) log
               else if is_ret s op args then
-                match stk with
+                match unwind entries (pc s') stk with
                 | f :: rest =>
-                    mrun O p k s' rest
+                    mrun entries O p k s' rest
                       ({| rr_callee := fr_callee f; rr_ok := Nat.eqb (pc s') (fr_ret f);
                           rr_dsp := (sp_of s - fr_sp f)%Z; rr_orphan := false |} :: log)
-                | [] => mrun O p k s' []
+                | [] => mrun entries O p k s' []
                           ({| rr_callee := 0; rr_ok := false; rr_dsp := 0%Z; rr_orphan := true |} :: log)
                 end
-              else mrun O p k s' stk log
-          | _ => mrun O p k s' stk log
+              else mrun entries O p k s' stk log
+          | _ => mrun entries O p k s' stk log
           end
       | _ => (s, stk, log)
       end
   end.
 
-Definition monitor (O : @oracle val) (p : @program val) (fuel : nat) : list (nat * bool * Z * bool) * nat :=
-  let '(s, stk, log) := mrun O p fuel (init_state A) [] [] in
+Definition monitor (entries : list nat) (O : @oracle val) (p : @program val) (fuel : nat) : list (nat * bool * Z * bool) * nat :=
+  let '(s, stk, log) := mrun entries O p fuel (init_state A) [] [] in
   (map (fun r => (rr_callee r, rr_ok r, rr_dsp r, rr_orphan r)) (rev log), length stk).
 
 (* the monitor does not disturb the run *)
-Lemma mrun_state O p fuel : forall s stk log, fst (fst (mrun O p fuel s stk log)) = run A O p fuel s.
+Lemma mrun_state entries O p fuel : forall s stk log, fst (fst (mrun entries O p fuel s stk log)) = run A O p fuel s.
 Proof.
   induction fuel as [|k IH]; intros s stk log; cbn [mrun run]; [reflexivity|].
   destruct (st s); try reflexivity.
   destruct (nth_error p (pc s)) as [[id|op args]|]; try apply IH.
   destruct (links op && _ && _); [apply IH|].
-  destruct (is_ret s op args); [destruct stk; apply IH|apply IH].
+  destruct (is_ret s op args); [destruct (unwind entries (pc (step A O p s)) stk); apply IH|apply IH].
 Qed.
 End Mon.
